@@ -302,13 +302,25 @@ nfa, with no epsilon transition
             start_eclose = self.eclose_iterable(self._start_state)
         else:
             start_eclose = self._start_state
-        start_state = to_single_state(start_eclose)
+        merged_states = {}
+
+        def to_merged_state(states):
+            # Two different sets of states must not get the same name
+            key = frozenset(states)
+            if key not in merged_states:
+                merged = to_single_state(states)
+                while merged in merged_states.values():
+                    merged = State(str(merged.value) + "'")
+                merged_states[key] = merged
+            return merged_states[key]
+
+        start_state = to_merged_state(start_eclose)
         dfa.add_start_state(start_state)
         to_process = [start_eclose]
         processed = {start_state}
         while to_process:
             current = to_process.pop()
-            s_from = to_single_state(current)
+            s_from = to_merged_state(current)
             for symb in self._input_symbols:
                 all_trans = [self._transition_function(x, symb)
                              for x in current]
@@ -320,7 +332,7 @@ nfa, with no epsilon transition
                 # Eclose added
                 if eclose:
                     state = self.eclose_iterable(state)
-                state_merged = to_single_state(state)
+                state_merged = to_merged_state(state)
                 dfa.add_transition(s_from, symb, state_merged)
                 if state_merged not in processed:
                     processed.add(state_merged)
@@ -621,21 +633,32 @@ nfa, with no epsilon transition
         symbols = list(self.symbols.intersection(other.symbols))
         to_process = []
         processed = set()
+        combined_states = {}
+
+        def combine(state0, state1):
+            # Two different pairs of states must not get the same name
+            if (state0, state1) not in combined_states:
+                combined = combine_state_pair(state0, state1)
+                while combined in combined_states.values():
+                    combined = State(str(combined.value) + "'")
+                combined_states[(state0, state1)] = combined
+            return combined_states[(state0, state1)]
+
         for st0 in self.eclose_iterable(self.start_states):
             for st1 in other.eclose_iterable(other.start_states):
-                enfa.add_start_state(combine_state_pair(st0, st1))
+                enfa.add_start_state(combine(st0, st1))
                 to_process.append((st0, st1))
                 processed.add((st0, st1))
         for st0 in self.final_states:
             for st1 in other.final_states:
-                enfa.add_final_state(combine_state_pair(st0, st1))
+                enfa.add_final_state(combine(st0, st1))
         while to_process:
             st0, st1 = to_process.pop()
-            current_state = combine_state_pair(st0, st1)
+            current_state = combine(st0, st1)
             for symb in symbols:
                 for new_s0 in self.eclose_iterable(self(st0, symb)):
                     for new_s1 in other.eclose_iterable(other(st1, symb)):
-                        state = combine_state_pair(new_s0, new_s1)
+                        state = combine(new_s0, new_s1)
                         enfa.add_transition(current_state, symb, state)
                         if (new_s0, new_s1) not in processed:
                             processed.add((new_s0, new_s1))
